@@ -417,6 +417,12 @@ def executeBoolItem (c : Ctx) (item : ItemK) (bool : BoolK) (s : St) (n : Node) 
   | .regex x pat fl _ => executePredicate c item s x none v false (fun l _ => likeRegex c pat fl l)
   | _ => ⟨s, .unknown, some .invalid⟩
 
+/-- the JSON value of a predicate outcome: `true`, `false`, or `null` for unknown -/
+def predItem : Pred → Item
+  | .unknown => .null
+  | .t => .bool true
+  | .f => .bool false
+
 /-- `exec.appendBoolResult` -/
 def appendBoolResult (c : Ctx) (item : ItemK) (nx : Option Node) (f : Found) (p : PRes) : Res :=
   match p.err with
@@ -424,8 +430,7 @@ def appendBoolResult (c : Ctx) (item : ItemK) (nx : Option Node) (f : Found) (p 
   | none =>
     if nx.isNone && f.isNone then ⟨p.st, f, .ok, none⟩
     else
-      let v : Item := match p.out with | .unknown => .null | .t => .bool true | .f => .bool false
-      executeNextItem c item p.st nx v f
+      executeNextItem c item p.st nx (predItem p.out) f
 
 /-- `exec.executeNestedBoolItem` -/
 def executeNestedBoolItem (bool : BoolK) (s : St) (n : Node) (v : Item) : PRes :=
